@@ -5,7 +5,7 @@ from fractions import Fraction
 from ..core.bits import BV, ZERO
 from ..core.poly import Poly
 from ..core.bitpoly import BPEval, NotInDomain, to_poly
-from ..core.srcmodel import dotted, unparse, norm, walk_no_nested, AnalysisError, names_in, stores_in
+from ..core.srcmodel import dotted, unparse, norm, walk_no_nested, AnalysisError, names_in, stores_in, clone_pos
 
 P9 = 'abacusnbody/data/pack9.py'
 RA = 'abacusnbody/data/read_abacus.py'
@@ -101,6 +101,57 @@ def expand(chk):
               f'bias table {bias} (need 2048 for k=0..5)', node=fn)
 
 
+def _loop_local_value(lp, use, name, mod):
+    """Value of `name` at statement `use` of the loop body when it is bound exactly once in the loop, by an earlier top-level
+    `name = value` of the same iteration, and no name read by `value` is re-bound or handed to a callee that writes into it in between."""
+    if use not in lp.body:
+        return None
+    stores = [n for n in walk_no_nested(lp) if isinstance(n, ast.Name) and n.id == name and isinstance(n.ctx, ast.Store)]
+    defs = [s for s in lp.body[:lp.body.index(use)] if isinstance(s, ast.Assign) and len(s.targets) == 1 and isinstance(s.targets[0], ast.Name) and s.targets[0].id == name]
+    if len(stores) != 1 or len(defs) != 1:
+        return None
+    d = defs[0]
+    reads = {n.id for n in ast.walk(d.value) if isinstance(n, ast.Name)}
+    funcs = {f.name: f for f in mod.body if isinstance(f, ast.FunctionDef)}
+    for st in lp.body[lp.body.index(d) + 1:lp.body.index(use)]:
+        for n in ast.walk(st):
+            if isinstance(n, ast.Name) and isinstance(n.ctx, ast.Store) and n.id in reads:
+                return None
+            if isinstance(n, (ast.Subscript, ast.Attribute)) and isinstance(n.ctx, ast.Store):
+                b = n
+                while isinstance(b, (ast.Subscript, ast.Attribute)):
+                    b = b.value
+                if isinstance(b, ast.Name) and b.id in reads:
+                    return None
+            if isinstance(n, ast.Call):
+                f = funcs.get(n.func.id) if isinstance(n.func, ast.Name) else None
+                for i, a in enumerate(n.args):
+                    an = {x.id for x in ast.walk(a) if isinstance(x, ast.Name)}
+                    if not (an & reads):
+                        continue
+                    if f is None or n.keywords or i >= len(f.args.args):
+                        return None
+                    par = f.args.args[i].arg
+                    # the callee must only read this parameter: no store through it, not passed on, not returned
+                    for x in ast.walk(f):
+                        if isinstance(x, (ast.Subscript, ast.Attribute)) and isinstance(x.ctx, ast.Store):
+                            b = x
+                            while isinstance(b, (ast.Subscript, ast.Attribute)):
+                                b = b.value
+                            if isinstance(b, ast.Name) and b.id == par:
+                                return None
+                        if isinstance(x, ast.Call) and any(isinstance(y, ast.Name) and y.id == par for arg in x.args for y in ast.walk(arg)) \
+                                and not (dotted(x.func) or '').startswith(('np.', 'int', 'len')):
+                            return None
+                        if isinstance(x, ast.Name) and x.id == par and isinstance(x.ctx, ast.Store):
+                            return None
+                for k in n.keywords:
+                    if {x.id for x in ast.walk(k.value) if isinstance(x, ast.Name)} & reads:
+                        return None
+    import copy
+    return clone_pos(d.value)
+
+
 def unpack(chk):
     src = chk.src
     fn = src.func(P9, '_unpack_pack9')
@@ -115,6 +166,13 @@ def unpack(chk):
     lp = loops[0]
     iv = lp.target.id
     ifs = [s for s in lp.body if isinstance(s, ast.If)]
+    # a test that was given a name earlier in the same iteration (is_header = p9[0] == 0xFF ... if is_header:) is put back in place,
+    # provided nothing it reads is changed in between
+    for s_ in ifs:
+        if isinstance(s_.test, ast.Name):
+            v_ = _loop_local_value(lp, s_, s_.test.id, src.tree(P9))
+            if v_ is not None:
+                s_.test = v_
     hdr = [s for s in ifs if '255' in unparse(s.test) or '0xFF' in unparse(s.test).upper() or '0xff' in unparse(s.test)]
     if len(hdr) != 1:
         # the record loop has a two-way header / particle choice whose test is not "first byte == 0xFF"
@@ -188,7 +246,8 @@ def unpack(chk):
       chk.check(ok0 and wname is not None, 'C15-R2', P9, '_unpack_pack9', 'counter starts at 0 and is the return value',
                 '', f'init={[unparse(i) for i in init]} return={[unparse(r) for r in rets]}', node=fn)
     # loop covers every record once
-    chk.check(unparse(lp.iter) in (f'range(len({data}))', 'range(N)') and _is_len(fn, 'N', data) or unparse(lp.iter) == f'range(len({data}))',
+    chk.check(unparse(lp.iter) in (f'range(len({data}))', 'range(N)') and _is_len(fn, 'N', data) or unparse(lp.iter) == f'range(len({data}))'
+              or (unparse(lp.iter) == data and isinstance(lp.target, ast.Name) and lp.target.id == rec),
               'C15-R2', P9, '_unpack_pack9', 'one loop iteration per record, in stream order', unparse(lp.iter),
               f'record loop is {unparse(lp.iter)}', node=lp)
 
